@@ -3,5 +3,7 @@
 set -u
 M=$1; P=$2; T=${3:-quick}
 git -C /repo apply /verif/seeded/$M/patch.diff || { echo "apply failed"; exit 2; }
+cp /verif/evidence/$P.json /tmp/evidence_$P.bak 2>/dev/null   # the evidence of a run on a changed tree is not kept
 python3 /verif/checks/run_check.py $P --tier $T 2>&1 | tail -${TAILN:-4}
 git -C /repo checkout -- .
+[ -f /tmp/evidence_$P.bak ] && mv /tmp/evidence_$P.bak /verif/evidence/$P.json
